@@ -33,6 +33,11 @@ func binSample(c *fw.Ctx, res *fw.Result, idx int, tag string, files map[string]
 	outPath := filepath.Join(d, "result.out")
 	if outFlag != "" {
 		argv = append(argv, outFlag, outPath)
+		if idx%2 == 0 {
+			// the output file already exists and holds a longer, unrelated earlier result
+			os.WriteFile(outPath, []byte(staleContent(len(want)+500)), 0644)
+			res.Count("binary_runs_over_existing_output_file", 1)
+		}
 	}
 	br := fw.RunBin(c.Bin, argv, stdin, nil, d, 120*time.Second)
 	res.Evals++
@@ -53,4 +58,26 @@ func binSample(c *fw.Ctx, res *fw.Result, idx int, tag string, files map[string]
 		f["stderr.txt"] = clipStr(string(br.Stderr), 4000)
 		res.Fail("binary-vs-entry-point:"+tag, fmt.Sprintf("gofasta %v (exit %d) does not produce the output of the entry point called with the same options: %s", argv, br.Exit, firstDiff(want, got)), f, argv)
 	}
+}
+
+// staleContent is n bytes of plausible stale output.
+func staleContent(n int) string {
+	line := ">stale_record_from_an_earlier_run\nACGTACGTACGTACGTACGTACGTACGTACGTACGTACGTACGTACGTACGTACGTACGT\n"
+	var b []byte
+	for len(b) < n {
+		b = append(b, line...)
+	}
+	return string(b)
+}
+
+// boolFlag renders a boolean switch: `--name` when true, and when false either nothing or an
+// explicit `--name=false` (both spellings are valid for cobra/pflag switches).
+func boolFlag(a []string, name string, v bool, explicit bool) []string {
+	if v {
+		return append(a, "--"+name)
+	}
+	if explicit {
+		return append(a, "--"+name+"=false")
+	}
+	return a
 }
